@@ -102,13 +102,20 @@ func localise(src, mode string, toks []lexer.Token, i int, rule string) string {
 			return "nonutf8:" + tokClass(t.Type())
 		}
 	}
+	if strings.HasPrefix(src, "<!DOCTYPE") {
+		// HtmlLexer path: every byte is in some token, so the element in front is the suspect
+		if i > 0 {
+			p := toks[i-1]
+			if s, e := p.Start(), p.End(); s >= 0 && e <= len(src) && s <= e && strings.Contains(src[s:e], "\n") && e-s > 1 {
+				return "html-after:" + htmlTokKind(src[s:e], p)
+			}
+		}
+		return "html-at:" + tokClass(toks[i].Type())
+	}
 	if i < len(toks) {
 		if name := strippedPrefix(src, toks[i]); name != "" {
 			return "stripped-prefix:" + name
 		}
-	}
-	if strings.HasPrefix(src, "<!DOCTYPE") {
-		return "doctype:" + tokClass(toks[i].Type())
 	}
 	cur := toks[i]
 	at := "at:" + tokClass(cur.Type())
@@ -192,8 +199,8 @@ func localise(src, mode string, toks []lexer.Token, i int, rule string) string {
 // the offsets are not shifted back? Returns the name of that lead-in.
 func strippedPrefix(src string, t lexer.Token) string {
 	s, e, lit := t.Start(), t.End(), t.Literal()
-	if s < 0 || e < s || lit == "" {
-		return ""
+	if s < 0 || e < s || len(lit) < 2 {
+		return "" // one-byte tokens match by coincidence
 	}
 	if e <= len(src) && src[s:e] == lit && strings.Count(src[:s], "\n") == t.Line() {
 		return ""
@@ -332,4 +339,21 @@ func checkCase(c spanCase) spanResult {
 		res.Causes = append(res.Causes, localise(src, c.Mode, toks, v.Index, v.Rule))
 	}
 	return res
+}
+
+// htmlTokKind names a token of the HTML lexer by what its text is.
+func htmlTokKind(text string, t lexer.Token) string {
+	switch {
+	case strings.HasPrefix(text, "<!--"):
+		return "comment"
+	case strings.HasPrefix(text, "<![CDATA["):
+		return "cdata"
+	case strings.HasPrefix(text, "<?"):
+		return "processing-instruction"
+	case strings.HasPrefix(text, "\""), strings.HasPrefix(text, "'"), strings.HasPrefix(text, "`"):
+		return "quoted-string"
+	case strings.TrimSpace(text) == "":
+		return "whitespace"
+	}
+	return "text-" + tokClass(t.Type())
 }
